@@ -27,6 +27,9 @@ func JudgeC06(r *Record) {
 	if !r.WgAborted && r.WgFinal != 0 {
 		r.add("waitgroup-nonzero-at-wait-return", r.theme(), "pending-transfer counter is %d after Wait returned", r.WgFinal)
 	}
+	for _, oid := range r.BadFiles {
+		r.add("download-destination-not-the-object", r.theme(), "after Wait returned the destination file of %s holds other bytes", oid)
+	}
 	success := map[string]int{}
 	for _, a := range r.Attempts {
 		if a.Outcome == "ok" {
